@@ -64,6 +64,7 @@ def pOp : P Op
   | "D" :: ts => do let (g, ts) ← pGrid ts; pure (.qHitDuring g, ts)
   | "N" :: ts => do let (g, ts) ← pGrid ts; pure (.makeNoise g, ts)
   | "C" :: ts => do let (b, ts) ← pBool ts; pure (.clear b, ts)
+  | "M" :: ts => some (.qHitMC, ts)
   | _ => none
 
 def pSysOp : P SysOp
@@ -76,6 +77,7 @@ def pSysOp : P SysOp
   | "D" :: ts => do let (g, ts) ← pGrid ts; pure (.qHitDuring g, ts)
   | "N" :: ts => do let (g, ts) ← pGrid ts; pure (.makeNoise g, ts)
   | "C" :: ts => do let (b, ts) ← pBool ts; pure (.clear b, ts)
+  | "M" :: ts => some (.qHitMC, ts)
   | "I" :: ts => do
       let (op, ts) ← pOp ts
       if isQuery op then pure (.inner op, ts) else none
@@ -129,16 +131,19 @@ def handle (ts : List String) : String :=
     match (do
       let (noisy, r) ← pBool r
       let (trig, r) ← pTrig r
+      let (strig, r) ← pTrig r
       let (lead, r) ← pRat r
       let (fe, r) ← (match r with
         | "I" :: r => some (idFe, r)
         | "H" :: r => some (halfFe, r)
+        | "B" :: r => some (baseFe, r)
+        | "E" :: r => some (echoFe, r)
         | _ => none : Option ((Wave → Wave) × List String))
       let (n, r) ← pNat r
       let (ops, r) ← pMany pSysOp n r
-      if r ≠ [] || lead < 0 || !ops.all (sysOpOk lead) then none else pure (noisy, trig, lead, fe, ops)) with
-    | some (noisy, trig, lead, fe, ops) =>
-      let c : SysCfg := ⟨⟨noisy, trig, detNoise⟩, lead, fe, trig⟩
+      if r ≠ [] || lead < 0 || !ops.all (sysOpOk lead) then none else pure (noisy, trig, strig, lead, fe, ops)) with
+    | some (noisy, trig, strig, lead, fe, ops) =>
+      let c : SysCfg := ⟨⟨noisy, trig, detNoise⟩, lead, fe, strig⟩
       let (_, outs) := ops.foldl (fun (acc : SysState × List String) op =>
         let r := sysStep c acc.1 op
         (r.1, acc.2 ++ [outS r.2 ++ " " ++ sysS r.1])) (sysInit, [])
